@@ -38,7 +38,7 @@ def harness_pairs(chk, progs, tag):
 
 def run(chk, replay=None):
     quick = chk.tier == "quick"
-    per_cfg = 60 if quick else 900
+    per_cfg = 40 if quick else 900
     configs = gen_progs.lang_configs()
     if replay:
         case = json.load(open(replay))["case"]
